@@ -264,3 +264,19 @@ Qed.
 
 Theorem holds_thr_model s w : holds_thr s w (thr_obs s w) = true.
 Proof. destruct s, w; reflexivity. Qed.
+
+Lemma inv_close_monitor_model c ops : forall s,
+  inv_close_monitor ops (map (fun p : Z * list gev => (Ok (A := Z) (fst p), snd p)) (inv_run c s ops)) (i_closed s) = true.
+Proof.
+  induction ops as [|o r IH]; intros s; [reflexivity |].
+  cbn [inv_run]. destruct (inv_step c s o) as [[s' v] ev] eqn:E. cbn [map fst snd inv_close_monitor].
+  assert (Hc : i_closed s' = i_closed s || existsb (gev_eqb GClose) ev).
+  { destruct s as [st rn cl w], c as [se ce], o; cbn in E;
+      destruct st, rn, cl, se, ce; try destruct w as [|[n|] w]; cbn in E; inversion E; subst; cbn; reflexivity. }
+  rewrite <- Hc. rewrite (IH s'), andb_true_r.
+  destruct s as [st rn cl w], c as [se ce], o; cbn in E;
+    destruct st, rn, cl, se, ce; try destruct w as [|[n|] w]; cbn in E; inversion E; subst; cbn; reflexivity.
+Qed.
+
+Theorem holds_inv_close_model c w ops : holds_inv_close ops (inv_obs c w ops) = true.
+Proof. unfold holds_inv_close, inv_obs. exact (inv_close_monitor_model c ops (inv_init w)). Qed.
